@@ -319,3 +319,20 @@ CHECKS["C16"] = dict(
     assumptions=_SOCK_ASSUME,
     jobs=[dict(name="sock", pkg="./sock", go=GO, test="TestC16", shards=(4, 16), checks=(150, 3000), timeout=(600, 3000))],
 )
+
+CHECKS["C20"] = dict(
+    rule=("rapid-drawn calls on real sockets: DescribeTunnel against a loopback UDP server and Discover against 1..20 multicast responders "
+          "(own 239.255.x.y group and port per case), timeouts 1..500 ms, scripts of 0..12 frames at drawn instants before, around and "
+          "after the deadline: matching responses, well-formed frames of other services, malformed frames, (describe) a matching response "
+          "from another address; plus DescribeTunnel against a port nobody listens on. Non-trivial = script with a non-matching or "
+          "malformed frame before the first match, a late first match, or no match; distinct by plan."),
+    level_text=("Sampled responder scripts on the real clock: the result is nil or the decode of the first description response sent by "
+                "the queried address (discovery: a duplicate-free subsequence, in send order, of the search responses sent, containing "
+                "every one sent well before the deadline and none sent well after it); nil/complete results imply elapsed >= timeout; "
+                "elapsed <= timeout + 1 s unless a control sleep beside the call shows a scheduler stall; exactly one request whose reply "
+                "address is the datagram's source; receiver goroutine and file descriptors are gone after return."),
+    level_note="Trusted: the in-process decode as expected value; margin = max(50 ms, timeout/2) around the deadline (and the first 30 ms of a discovery, before its socket can have joined the group) is a don't-care window. The number of discovery requests is not observed (the request is multicast without loopback).",
+    technique="rapid-generated responder scripts against live loopback/multicast sockets; first-match / subsequence oracle with don't-care windows, lower/upper time bounds with a scheduler-health control",
+    assumptions=_SOCK_ASSUME,
+    jobs=[dict(name="sock", pkg="./sock", go=GO, test="TestC20", shards=(8, 16), checks=(30, 500), timeout=(600, 3000))],
+)
